@@ -1,5 +1,5 @@
 check("C13",
-      "Theorems (Coq, unbounded): exactly one decider for distinct tub ids; for every pair of endpoints (any version ranges, vocab ranges, "
+      "[Round 3: the header verdict of Negotiation.dataReceived (refuse / wait / split) is read by symbolic execution of the statements between the terminator search and the split and proved equal to its specification (C13_header_verdict), so any arrangement of the tests translates; a refused decision must leave an established connection and the connection records untouched (oracle on real Tubs, 8 damaged-decision families x both first-dial directions).] Theorems (Coq, unbounded): exactly one decider for distinct tub ids; for every pair of endpoints (any version ranges, vocab ranges, "
       "hash functions) negotiate yields identical parameters = highest common version and vocab index with matching hash, or failure on both "
       "sides; success when compatible; spec of the translated best_overlap/check_inrange; 4096 header cap. The model is tied to the code by "
       "translation (best_overlap, check_inrange, master comparison, call-site shape facts, constants) and by a correspondence sweep of the real "
